@@ -1058,7 +1058,7 @@ fn run_dealer_shapes(plan: &Plan, lib: &dyn Lib, g: Grp, rec: &mut Rec) {
     use refimpl::{scalar_from_be, scalar_from_u64, scalar_neg_u64, scalar_to_be};
     let scheme = plan.get("scheme") as u8;
     let mut x = Xo::derive(plan.seed, &[0x7D5]);
-    let shape = plan.steps.first().map(|s| s.arg(0)).unwrap_or(0) as u64 % 5;
+    let shape = plan.steps.first().map(|s| s.arg(0)).unwrap_or(0) as u64 % 7;
     // learn the layout: identifier byte + 32-byte value, big- or little-endian
     let Some(probe) = deal(rec, lib, g, 4, 2, 3, plan.seed) else { return };
     let parse = |sh: &[u8], le: bool| -> Option<(u8, refimpl::RefScalar)> {
@@ -1109,11 +1109,29 @@ fn run_dealer_shapes(plan: &Plan, lib: &dyn Lib, g: Grp, rec: &mut Rec) {
         1 => (3, 5, vec![rnd(&mut x), scalar_from_u64(0)], "top coefficient zero"),
         2 => (3, 4, vec![scalar_from_u64(0), scalar_from_u64(0)], "constant polynomial (every share equals the key)"),
         3 => (3, 6, vec![scalar_from_u64(1), scalar_neg_u64(1)], "coefficients 1 and r-1"),
-        _ => {
+        4 => {
             // f(1) = f(3) with t = 3: 2 a1 + 8 a2 = 0
             let a2 = rnd(&mut x);
             (3, 5, vec![-(scalar_from_u64(4) * a2), a2], "two participants hold equal values (f(1)=f(3))")
         }
+        5 => {
+            // a root at a participant: f(2) = s0 + 2 a1 + 4 a2 = 0 — participant 2 holds the value ZERO
+            let a2 = rnd(&mut x);
+            let half = Option::<refimpl::RefScalar>::from(scalar_from_u64(2).invert()).unwrap();
+            (3, 5, vec![-(s0 + scalar_from_u64(4) * a2) * half, a2], "participant 2 holds the value zero (f(2)=0)")
+        }
+        _ => {
+            // f(5) = s0 + 5 a1 = 0 with t = 2: the last participant holds zero
+            let fifth = Option::<refimpl::RefScalar>::from(scalar_from_u64(5).invert()).unwrap();
+            (2, 5, vec![-s0 * fifth], "participant 5 holds the value zero (f(5)=0)")
+        }
+    };
+    // a participant whose share value is zero cannot sign (the zero scalar never signs, C04) and its public-key share is the
+    // identity: such a participant takes part in KEY recombination only
+    let zero_holder: Option<usize> = match shape {
+        5 => Some(1),
+        6 => Some(4),
+        _ => None,
     };
     let eval = |id: u64| -> refimpl::RefScalar {
         let xs = scalar_from_u64(id);
@@ -1131,7 +1149,12 @@ fn run_dealer_shapes(plan: &Plan, lib: &dyn Lib, g: Grp, rec: &mut Rec) {
     let Some(whole) = rec.call(lib, g, Op::Sign, &[&sk, &[scheme], &m]).first().map(|b| b.to_vec()) else { return };
     let mut pks = vec![];
     let mut parts = vec![];
-    for sh in &shares {
+    for (si, sh) in shares.iter().enumerate() {
+        if Some(si) == zero_holder {
+            pks.push(vec![]);
+            parts.push(vec![]);
+            continue;
+        }
         let a = rec.call(lib, g, Op::SharePk, &[sh]);
         let b = rec.call(lib, g, Op::ShareSign, &[sh, &[scheme], &m]);
         match (a.first(), b.first()) {
@@ -1156,14 +1179,17 @@ fn run_dealer_shapes(plan: &Plan, lib: &dyn Lib, g: Grp, rec: &mut Rec) {
         }
         let ids: Vec<usize> = order.iter().map(|i| i + 1).collect();
         let ko = rec.call(lib, g, Op::Combine, &order.iter().map(|i| shares[*i].as_slice()).collect::<Vec<_>>());
+        rec.expect("C08", "key-recombine", ko.first() == Some(sk.as_slice()), || format!("SecretKey::combine | dealer-shape: {}; t={} n={} ids={:?}: {:?}", label, t, n, ids, ko.kind()));
+        if zero_holder.is_some_and(|z| order.contains(&z)) {
+            continue;
+        }
         let po = rec.call(lib, g, Op::PkFromShares, &order.iter().map(|i| pks[*i].as_slice()).collect::<Vec<_>>());
         let so = rec.call(lib, g, Op::SigFromShares, &order.iter().map(|i| parts[*i].as_slice()).collect::<Vec<_>>());
-        rec.expect("C08", "key-recombine", ko.first() == Some(sk.as_slice()), || format!("SecretKey::combine | dealer-shape: {}; t={} n={} ids={:?}: {:?}", label, t, n, ids, ko.kind()));
         rec.expect("C08", "pk-recombine", po.first() == Some(pk.as_slice()), || format!("PublicKey::from_shares | dealer-shape: {}; t={} n={} ids={:?}: {:?}", label, t, n, ids, po.kind()));
         rec.expect("C08", "combine-exact", so.first() == Some(whole.as_slice()), || format!("Signature::from_shares | dealer-shape: {}; t={} n={} ids={:?}: {:?}", label, t, n, ids, so.kind()));
     }
     // each partial verifies against its own key share
-    for i in 0..n {
+    for i in (0..n).filter(|i| Some(*i) != zero_holder) {
         let v = rec.call(lib, g, Op::PkShareVerify, &[&pks[i], &parts[i], &m]);
         rec.expect("C08", "partial-verifies-own", v.is_ok(), || format!("own | dealer-shape: {}; participant {}: {:?}", label, i + 1, v));
     }
